@@ -3,6 +3,7 @@ import KcpVerif.Props.C11Core
 import KcpVerif.Props.C01Session
 import KcpVerif.Lemmas.C11IsoSys
 import KcpVerif.Lemmas.C11IsoTrace
+import KcpVerif.Lemmas.C11IsoAcc
 import KcpVerif.Lemmas.C11IsoWire
 /-!
 C11 — `isolation` (DESIGN.md 7.11, Tier-2 composition) and "no cross stall".
@@ -78,7 +79,18 @@ theorem C11_isolation (honest : String → Bool) (evs : List IEv) (j : Nat) (S :
     ∃ P, (C11Iso.run honest {} evs).clients S.addr S.conv = some P ∧ (P.log.length < 2 ^ 32 → S.st.rd <+: P.wr) :=
   C11_isolation_of_wire C11_wire_conv honest evs j S hS ha
 
-/-- the same for the sessions `Accept` has returned: every returned index is a session object -/
+/-- **the sessions `Accept` has returned**: every index Accept has returned is a session object, and
+if its address is honest its reader's bytes are a prefix of its own peer's writes -/
+theorem C11_isolation_accepted (honest : String → Bool) (evs : List IEv) (id : Nat)
+    (hid : id ∈ (C11Iso.run honest {} evs).accepted) :
+    ∃ S, (C11Iso.run honest {} evs).l.objs[id]? = some S ∧
+      (honest S.addr = true →
+        ∃ P, (C11Iso.run honest {} evs).clients S.addr S.conv = some P ∧ (P.log.length < 2 ^ 32 → S.st.rd <+: P.wr)) := by
+  have hlt := accOk_run honest evs {} accOk_init id (Or.inl hid)
+  refine ⟨(C11Iso.run honest {} evs).l.objs[id], List.getElem?_eq_getElem hlt, fun ha => ?_⟩
+  exact C11_isolation honest evs id _ (List.getElem?_eq_getElem hlt) ha
+
+/-- the invariant behind `C11_isolation`, for every reachable state of the composite system -/
 theorem C11_isolation_state (honest : String → Bool) (evs : List IEv) :
     Inv honest (C11Iso.run honest {} evs) := inv_run C11_wire_conv evs {} (inv_init honest)
 
